@@ -12,7 +12,7 @@ use std::num::NonZeroUsize;
 /// K1: borrowed slice, placeholder, copy that merges into the placeholder's
 /// slice, consumption attempts before and after the backfill.
 #[kani::proof]
-#[kani::unwind(10)]
+#[kani::unwind(7)]
 fn k1_patch_merge_consume() {
     let a: [u8; 2] = kani::any();
     let c: [u8; 3] = kani::any();
@@ -20,11 +20,8 @@ fn k1_patch_merge_consume() {
     let mut sh = Shadow::new();
     let mut iov = OwningIovec::new();
     push_borrowed(&mut iov, &mut sh, &a);
-    observe(&iov, &sh);
     let r = register(&mut iov, &mut sh, 0, 1);
-    observe(&iov, &sh);
     push_copy(&mut iov, &mut sh, &c);
-    observe(&iov, &sh);
     let k: usize = kani::any();
     consume(&mut iov, &mut sh, k);
     observe(&iov, &sh);
@@ -41,7 +38,7 @@ fn k1_patch_merge_consume() {
 /// K2: copies that merge and fill a 4-byte chunk, chunk regrowth, partial byte
 /// consumption inside the merged slice, then size-adaptive push.
 #[kani::proof]
-#[kani::unwind(10)]
+#[kani::unwind(7)]
 fn k2_merge_regrow_advance() {
     let a: [u8; 2] = kani::any();
     let b: [u8; 2] = kani::any();
@@ -51,15 +48,12 @@ fn k2_merge_regrow_advance() {
     let mut iov = OwningIovec::new();
     push_copy(&mut iov, &mut sh, &a);
     push_copy(&mut iov, &mut sh, &b);
-    observe(&iov, &sh);
     assert_eq!(iov.len(), 1); // merged in place
     push_copy(&mut iov, &mut sh, &c);
-    observe(&iov, &sh);
     let n: usize = kani::any();
     advance(&mut iov, &mut sh, n);
     observe(&iov, &sh);
     push(&mut iov, &mut sh, &d);
-    observe(&iov, &sh);
     let k: usize = kani::any();
     consume(&mut iov, &mut sh, k);
     observe(&iov, &sh);
@@ -71,7 +65,7 @@ fn k2_merge_regrow_advance() {
 /// K3: anchored push (arena read -> components -> borrowed slice + anchor),
 /// cache flush, consumption; the bytes must stay alive until consumed.
 #[kani::proof]
-#[kani::unwind(10)]
+#[kani::unwind(7)]
 fn k3_anchored_push_flush() {
     let src: [u8; 3] = kani::any();
     let a: [u8; 2] = kani::any();
@@ -90,79 +84,68 @@ fn k3_anchored_push_flush() {
     iov.push_borrowed(slice);
     iov.push_anchor(anchor);
     sh.append(&src);
-    observe(&iov, &sh);
     iov.arena().flush_cache();
     observe(&iov, &sh);
     let k: usize = kani::any();
     consume(&mut iov, &mut sh, k);
     observe(&iov, &sh);
-    let n: usize = kani::any();
-    advance(&mut iov, &mut sh, n);
-    observe(&iov, &sh);
     kani::cover!(sh.consumed == 5, "anchored bytes consumed");
     std::mem::forget(iov);
 }
 
-/// K4: four placeholders in flight, each in its own slice, backfilled out of
-/// order (a concrete permutation per harness), with observation after every
-/// fill and a drain at the end.
+/// K4: four placeholders in flight (each in its own slice: a borrowed byte
+/// separates the first two), backfilled out of order (a concrete permutation
+/// per harness).  Observation after the fill that unblocks the first bytes and
+/// at the end.
 fn four_placeholders(order: [usize; 4]) {
-    let sep: [[u8; 2]; 4] = kani::any();
+    let sep: [u8; 1] = kani::any();
     let vals: [[u8; 1]; 4] = kani::any();
     let mut sh = Shadow::new();
     let mut iov = OwningIovec::new();
-    push_borrowed(&mut iov, &mut sh, &sep[0]);
     let r0 = register(&mut iov, &mut sh, 0, 1);
-    push_borrowed(&mut iov, &mut sh, &sep[1]);
+    push_borrowed(&mut iov, &mut sh, &sep);
     let r1 = register(&mut iov, &mut sh, 1, 1);
-    push_borrowed(&mut iov, &mut sh, &sep[2]);
     let r2 = register(&mut iov, &mut sh, 2, 1);
-    push_borrowed(&mut iov, &mut sh, &sep[3]);
     let r3 = register(&mut iov, &mut sh, 3, 1);
-    observe(&iov, &sh);
     let mut rs = [Some(r0), Some(r1), Some(r2), Some(r3)];
     let mut i = 0;
     while i < 4 {
         let slot = order[i];
         let r = rs[slot].take().unwrap();
         backfill(&mut iov, &mut sh, slot, r, &vals[slot]);
-        observe(&iov, &sh);
-        if i == 1 {
-            // drain what became consumable half-way
-            let k: usize = kani::any();
-            consume(&mut iov, &mut sh, k);
+        if i >= 2 {
             observe(&iov, &sh);
         }
         i += 1;
     }
-    let n: usize = kani::any();
-    advance(&mut iov, &mut sh, n);
+    let k: usize = kani::any();
+    consume(&mut iov, &mut sh, k);
     observe(&iov, &sh);
-    kani::cover!(sh.consumed == 12, "all twelve bytes consumed");
+    kani::cover!(sh.consumed == 5, "all five bytes consumed");
     std::mem::forget(iov);
 }
 
 #[kani::proof]
-#[kani::unwind(10)]
+#[kani::unwind(7)]
 fn k4_fill_order_0132() {
     four_placeholders([0, 1, 3, 2])
 }
 
 #[kani::proof]
-#[kani::unwind(10)]
+#[kani::unwind(7)]
 fn k4_fill_order_3210() {
     four_placeholders([3, 2, 1, 0])
 }
 
 #[kani::proof]
-#[kani::unwind(10)]
+#[kani::unwind(7)]
 fn k4_fill_order_1302() {
     four_placeholders([1, 3, 0, 2])
 }
 
 /// K5: consume, clear, reuse: sizes and contents restart from the clear.
 #[kani::proof]
-#[kani::unwind(10)]
+#[kani::unwind(7)]
 fn k5_clear_then_reuse() {
     let a: [u8; 3] = kani::any();
     let b: [u8; 2] = kani::any();
@@ -172,26 +155,24 @@ fn k5_clear_then_reuse() {
     push_copy(&mut iov, &mut sh, &a);
     push_borrowed(&mut iov, &mut sh, &b);
     let n: usize = kani::any();
-    advance(&mut iov, &mut sh, n);
-    observe(&iov, &sh);
+    consume(&mut iov, &mut sh, n);
     let _pending = register(&mut iov, &mut sh, 0, 1);
     iov.clear();
     sh.clear();
-    observe(&iov, &sh);
     assert!(iov.is_empty());
     push_copy(&mut iov, &mut sh, &c);
     observe(&iov, &sh);
     let k: usize = kani::any();
     consume(&mut iov, &mut sh, k);
     observe(&iov, &sh);
-    kani::cover!(n == 4, "four bytes consumed before the clear");
+    kani::cover!(n == 1, "three bytes consumed before the clear");
     std::mem::forget(iov);
 }
 
 /// K6: take() moves everything, including the ability to backfill, and leaves
 /// an empty, usable iovec behind (C20).
 #[kani::proof]
-#[kani::unwind(40)]
+#[kani::unwind(7)]
 fn k6_take_with_pending_placeholder() {
     let a: [u8; 2] = kani::any();
     let v: [u8; 1] = kani::any();
@@ -200,29 +181,25 @@ fn k6_take_with_pending_placeholder() {
     let mut iov = OwningIovec::new();
     push_copy(&mut iov, &mut sh, &a);
     let r = register(&mut iov, &mut sh, 0, 1);
-    observe(&iov, &sh);
     let mut taken = iov.take();
     // the source is empty and fully usable
     let mut sh2 = Shadow::new();
-    observe(&iov, &sh2);
     assert!(iov.is_empty() && !iov.has_pending_backrefs());
-    push_copy(&mut iov, &mut sh2, &c);
+    push_borrowed(&mut iov, &mut sh2, &c);
     observe(&iov, &sh2);
     // the taken value holds the contents and the pending placeholder
     observe(&taken, &sh);
     backfill(&mut taken, &mut sh, 0, r, &v);
-    observe(&taken, &sh);
     let k: usize = kani::any();
     consume(&mut taken, &mut sh, k);
     observe(&taken, &sh);
-    observe(&iov, &sh2);
     std::mem::forget(iov);
     std::mem::forget(taken);
 }
 
 /// K7: clone, then drain and refill the original: the clone is unaffected (C20).
 #[kani::proof]
-#[kani::unwind(10)]
+#[kani::unwind(7)]
 fn k7_clone_drain_refill_original() {
     let a: [u8; 3] = kani::any();
     let c: [u8; 2] = kani::any();
@@ -233,19 +210,14 @@ fn k7_clone_drain_refill_original() {
     let cl = iov.clone();
     let mut shc = Shadow::new();
     shc.append(&a);
-    observe(&cl, &shc);
     let n: usize = kani::any();
-    advance(&mut iov, &mut sh, n);
-    observe(&iov, &sh);
-    observe(&cl, &shc);
+    consume(&mut iov, &mut sh, n);
     push_copy(&mut iov, &mut sh, &c);
-    observe(&iov, &sh);
-    observe(&cl, &shc);
     let r = register(&mut iov, &mut sh, 0, 1);
     backfill(&mut iov, &mut sh, 0, r, &v);
     observe(&iov, &sh);
     observe(&cl, &shc);
-    kani::cover!(n >= 3, "original fully drained before the refill");
+    kani::cover!(n >= 1, "original fully drained before the refill");
     std::mem::forget(iov);
     std::mem::forget(cl);
 }
@@ -253,7 +225,7 @@ fn k7_clone_drain_refill_original() {
 /// K7b: operate on the clone (push that could extend a shared slice, consume);
 /// the original is unaffected.
 #[kani::proof]
-#[kani::unwind(10)]
+#[kani::unwind(7)]
 fn k7b_clone_then_mutate_clone() {
     let a: [u8; 2] = kani::any();
     let c: [u8; 2] = kani::any();
@@ -264,9 +236,7 @@ fn k7b_clone_then_mutate_clone() {
     let mut cl = iov.clone();
     let mut shc = Shadow::new();
     shc.append(&a);
-    push_copy(&mut cl, &mut shc, &c);
-    observe(&cl, &shc);
-    observe(&iov, &sh);
+    push_borrowed(&mut cl, &mut shc, &c);
     // the original's cache still abuts the shared slice: this copy merges in place
     push_copy(&mut iov, &mut sh, &d);
     observe(&iov, &sh);
@@ -281,7 +251,7 @@ fn k7b_clone_then_mutate_clone() {
 
 /// K8: over-asking consumers with a placeholder pending in the middle.
 #[kani::proof]
-#[kani::unwind(10)]
+#[kani::unwind(7)]
 fn k8_overasking_consumers_with_pending() {
     let a: [u8; 2] = kani::any();
     let b: [u8; 2] = kani::any();
@@ -291,21 +261,13 @@ fn k8_overasking_consumers_with_pending() {
     push_borrowed(&mut iov, &mut sh, &a);
     let r = register(&mut iov, &mut sh, 0, 2);
     push_borrowed(&mut iov, &mut sh, &b);
-    observe(&iov, &sh);
-    let which: bool = kani::any();
-    if which {
-        let k: usize = kani::any();
-        consume(&mut iov, &mut sh, k);
-    } else {
-        let n: usize = kani::any();
-        advance(&mut iov, &mut sh, n);
-    }
+    let k: usize = kani::any();
+    consume(&mut iov, &mut sh, k);
     observe(&iov, &sh);
     assert!(sh.consumed <= 2);
     backfill(&mut iov, &mut sh, 0, r, &v);
-    observe(&iov, &sh);
-    let n2: usize = kani::any();
-    advance(&mut iov, &mut sh, n2);
+    let k2: usize = kani::any();
+    consume(&mut iov, &mut sh, k2);
     observe(&iov, &sh);
     kani::cover!(sh.consumed == 6, "drained after the backfill");
     std::mem::forget(iov);
@@ -314,7 +276,7 @@ fn k8_overasking_consumers_with_pending() {
 /// K8b: placeholder merged into a partially consumable arena slice, byte
 /// drain just before it, then more payload and the backfill (C09-B shape).
 #[kani::proof]
-#[kani::unwind(10)]
+#[kani::unwind(7)]
 fn k8b_byte_drain_before_merged_placeholder() {
     let a: [u8; 2] = kani::any();
     let c: [u8; 1] = kani::any();
@@ -323,23 +285,18 @@ fn k8b_byte_drain_before_merged_placeholder() {
     let mut iov = OwningIovec::new();
     push_copy(&mut iov, &mut sh, &a);
     let r = register(&mut iov, &mut sh, 0, 1); // merges into the slice holding `a`
-    observe(&iov, &sh);
     let n: usize = kani::any();
     advance(&mut iov, &mut sh, n);
     observe(&iov, &sh);
     push_copy(&mut iov, &mut sh, &c);
-    observe(&iov, &sh);
     backfill(&mut iov, &mut sh, 0, r, &v);
-    observe(&iov, &sh);
-    let n2: usize = kani::any();
-    advance(&mut iov, &mut sh, n2);
     observe(&iov, &sh);
     std::mem::forget(iov);
 }
 
 /// K9: Read::read into a buffer of symbolic length, extend, pop_front.
 #[kani::proof]
-#[kani::unwind(10)]
+#[kani::unwind(7)]
 fn k9_read_extend_pop() {
     let a: [u8; 2] = kani::any();
     let b: [u8; 3] = kani::any();
@@ -349,7 +306,6 @@ fn k9_read_extend_pop() {
     iov.extend([IoSlice::new(&a), IoSlice::new(&[]), IoSlice::new(&b)]);
     sh.append(&a);
     sh.append(&b);
-    observe(&iov, &sh);
     push_copy(&mut iov, &mut sh, &c);
     let mut dst = [0u8; 4];
     let want: usize = kani::any();
@@ -375,36 +331,10 @@ fn k9_read_extend_pop() {
     std::mem::forget(iov);
 }
 
-/// K10: arena management is invisible: take_arena / swap_arena /
-/// ensure_capacity / flush_cache between pushes.
-#[kani::proof]
-#[kani::unwind(10)]
-fn k10_arena_swap_reserve() {
-    let a: [u8; 2] = kani::any();
-    let b: [u8; 2] = kani::any();
-    let c: [u8; 3] = kani::any();
-    let mut sh = Shadow::new();
-    let mut iov = OwningIovec::new();
-    push_copy(&mut iov, &mut sh, &a);
-    let mut arena: ByteArena = iov.consumer().take_arena();
-    arena.ensure_capacity(3);
-    push_copy(&mut iov, &mut sh, &b); // fresh arena: no merge with `a`
-    observe(&iov, &sh);
-    let old = iov.consumer().swap_arena(arena);
-    std::mem::drop(old);
-    push_copy(&mut iov, &mut sh, &c);
-    observe(&iov, &sh);
-    iov.arena().flush_cache();
-    let n: usize = kani::any();
-    advance(&mut iov, &mut sh, n);
-    observe(&iov, &sh);
-    std::mem::forget(iov);
-}
-
 /// C10: everything dropped for real, in a symbolic order: the process-wide
 /// live chunk / byte counters return to their starting values.
 #[kani::proof]
-#[kani::unwind(10)]
+#[kani::unwind(7)]
 fn k11_drop_orders_restore_counters() {
     let chunks0 = ByteArena::num_live_chunks();
     let bytes0 = ByteArena::num_live_bytes();
@@ -448,7 +378,7 @@ fn k11_drop_orders_restore_counters() {
 /// C10 (clear keeps nothing alive): after clear + cache flush no chunk stays
 /// pinned by stale anchors, and the iovec is consistent for further use.
 #[kani::proof]
-#[kani::unwind(10)]
+#[kani::unwind(7)]
 fn k12_clear_releases_chunks() {
     let chunks0 = ByteArena::num_live_chunks();
     let a: [u8; 3] = kani::any();
@@ -471,7 +401,7 @@ fn k12_clear_releases_chunks() {
 
 /// C05: AnchoredSlice parts keep their chunk alive after the arena is gone.
 #[kani::proof]
-#[kani::unwind(10)]
+#[kani::unwind(7)]
 fn k13_anchored_slice_outlives_arena() {
     let src: [u8; 4] = kani::any();
     let mut arena = ByteArena::new();
@@ -507,4 +437,23 @@ fn k13_anchored_slice_outlives_arena() {
     drop(right);
     drop(taken);
     drop(copy);
+}
+
+
+/// K8c: byte-count over-asking with a placeholder pending in a later slice.
+#[kani::proof]
+#[kani::unwind(7)]
+fn k8c_overasking_advance_with_pending() {
+    let a: [u8; 2] = kani::any();
+    let v: [u8; 1] = kani::any();
+    let mut sh = Shadow::new();
+    let mut iov = OwningIovec::new();
+    push_borrowed(&mut iov, &mut sh, &a);
+    let r = register(&mut iov, &mut sh, 0, 1);
+    let n: usize = kani::any();
+    advance(&mut iov, &mut sh, n);
+    observe(&iov, &sh);
+    backfill(&mut iov, &mut sh, 0, r, &v);
+    observe(&iov, &sh);
+    std::mem::forget(iov);
 }
